@@ -6,7 +6,7 @@ from checks import c11
 
 ID = "C09"
 LEAN_MODULE = "Ctrmml.Properties.C09"
-THEOREMS = ["C09_mds_shape", "C09_track_table_exact", "C09_slot_count", "C09_volume_carried", "C09_ids_injective",
+THEOREMS = ["C09_mds_shape", "C09_track_table_exact", "C09_slot_count", "C09_volume_carried", "C09_ids_injective_partial",
             "C09_index_fits_byte", "C09_d19_counterexample_before_fix"]
 LEVEL = "proof"
 STREAM = "mds.bytes+conv.maps"
@@ -17,10 +17,11 @@ TECHNIQUE = ("Lean 4 theorems over the model of the MDSDRV_Converter constructor
 LEVEL_TEXT = ("Machine-checked: every exported file walks back (RiffTree client walker) to RIFF/MDS0 [ver,grp,seq,LIST dblk(glob|pcmh)*,pcmd] with the table version (C09_mds_shape); "
               "the seq header holds base = 4+4n, the volume byte, the track count, one table entry per converted channel track in conversion order whose offset is the start of "
               "that track's stream inside the chunk (C09_track_table_exact), followed by exactly |subs|+|macros|+|data| two-byte slots, the stream slots pointing at the starts of the "
-              "subroutine and macro streams and the data slots zero (C09_slot_count); header byte 2 = min 127 of the decimal #volume (C09_volume_carried); dblk ids are pairwise "
-              "distinct slot indices (C09_ids_injective); every index operand the converter writes fits its byte or the export is rejected (C09_index_fits_byte; D19 fixed). "
+              "subroutine and macro streams and the data slots zero (C09_slot_count); header byte 2 = min 127 of the #volume number (C09_volume_carried); dblk ids are pairwise "
+              "distinct slot indices given that used_data_map numbers its keys 0,1,2,.. (C09_ids_injective_partial; get_envelope, the only writer, is proved to keep that); every index operand the converter writes fits its byte or the export is rejected (C09_index_fits_byte; D19 fixed). "
               "index_resolves / nothing_unused over the recursive writer are decided per case by the resolver oracle on the real bytes (kept as C09_full_statement).")
-LEVEL_NOTE = ("Partial: index_resolves and nothing_unused (invariant over the mutually recursive writer) are not proved; they are checked by Spec/MdsResolve.checkFile on the real file of "
+LEVEL_NOTE = ("Partial: index_resolves, nothing_unused and the UsedOk hypothesis of ids_injective (an invariant carried through the mutually recursive writer) are not proved; "
+              "track_table_exact / slot_count carry the hypothesis seq <= 65536 bytes (16-bit offsets); they are checked by Spec/MdsResolve.checkFile on the real file of "
               "every generated song (every INS/PCM/PEG/MTAB/PAT/drum-note operand of every reachable stream resolved and compared with the C11 encoding / the named track). "
               "Trusted: Lean kernel, hand-written model and spec, C11 encoder model as the reference for entry contents, g++/ASan/UBSan, harness.")
 RULE = ("songs built from items {fm, 2op, psg, pcm instrument, normal/extended pitch envelope, subroutine, shared subroutine, drum routine, macro track}: corpus (D7, D19 and the "
